@@ -264,12 +264,12 @@ def run(tier: str, replay: str | None = None):
                 # the name follows "('" + text + "', " : 2 ASCII characters, the text, 3 ASCII characters
                 def widths(text):
                     return [1, 1] + [len(ch.encode("utf-8")) for ch in text] + [1, 1, 1]
-                mv = lib.coq_eval("From Coq Require Import List. Import ListNotations.\nRequire Import PV.Total.Column.",
-                                  [f"reported_col {lib.clist([str(w) + '%nat' for w in widths(t)])} {len(t) + 5}%nat" for t in ccases], name="c12c")
+                mv = lib.coq_eval("From Coq Require Import List. Import ListNotations.\nRequire Import PV.Total.Column PV.Gen.Total.",
+                                  [f"reported_col_gen column_converted {lib.clist([str(w) + '%nat' for w in widths(t)])} {len(t) + 5}%nat" for t in ccases], name="c12c")
                 for t, m, i in zip(ccases, mv, impl_cols):
                     n_corr += 1
                     if m != i:
-                        corr.append(("Total.Column.reported_col vs ast col_offset as reported by show_error", {"column_case": t}, i, m))
+                        corr.append(("Total.Column.reported_col_gen column_converted vs the column reported by show_error", {"column_case": t}, i, m))
             if impl_disp:
                 classes = sorted(impl_disp["boolability"])
                 kinds = sorted(impl_disp["annotation"])
